@@ -359,6 +359,22 @@ def _xyz_layout(x):
     return f"def xyzL : Xyz.Layout := ⟨{sym[2]}, [{cols}], {chars(_default_title(title[1]))}⟩\n"
 
 
+@layout("sdf")
+def _sdf_layout(x):
+    ws = [f for fn, f in x.writes if fn == "dump_one"]
+    title, _, _, counts, atom, bond, endl, sep = ws
+    lits = lambda fs: [f[1] for f in fs if f[0] == "lit" and f[1] != "\n"]  # noqa: E731
+    ints = lambda fs: [f for f in fs if f[0] == "int"]  # noqa: E731
+    fx = [f for f in atom if f[0] == "fix"][0]
+    sym = [f for f in atom if f[0] == "str"][0]
+    gap, atail = lits(atom)
+    return (
+        f"def sdfL : Sdf.Layout :=\n  ⟨{ints(counts)[0][2]}, {fx[3]}, {fx[4]}, {sym[2]}, {ints(bond)[0][2]}, "
+        f"{chars(lits(counts)[0])}, {chars(gap)}, {chars(atail)}, {chars(lits(bond)[0])}, "
+        f"{chars(lits(endl)[0])}, {chars(lits(sep)[0])}, {chars(_default_title(title[0][1]))}⟩\n"
+    )
+
+
 def build_gen() -> str:
     out = [
         "import Iodata.Model.Fmt.Core",
